@@ -479,6 +479,28 @@ H("C02", "mpq", _BP, "quick", "C02.d a stored (uncompressed, unencrypted) file l
 # c02d_builder_to_reference_ms_* (multi-sector writer with the abstract codec: 40 min time-out).  The sector layout of
 # compressed multi-sector files is outside the C02 claim.
 
+H("C10", "mpq", _SG, "thorough", "C10.b signature window crossing a 64 KiB digest-unit boundary: exactly the window is zeroed, the bytes behind it stay covered",
+  ["c10b_digest_window_straddles_unit_boundary"], ["crypto::signature::calculate_mpq_hash_md5"],
+  "65664 signed bytes: 192 symbolic bytes around offset 65536 (rest concrete), window [65500, 65572)", "one boundary crossing",
+  stubs=[FMT, "md5::compress::compress -> tap recording the three 64-byte blocks around the boundary"], timeout=2400)
+# ------------------------------------------------------------------------------- C10.c attributes
+_AT = "verif_kani_attributes"
+H("C10", "mpq", _AT, "quick", "C10.c (attributes) write->parse keeps every per-file CRC32 / timestamp / MD5 / patch bit; size == header + arrays",
+  ["c10c_attributes_roundtrip_crc", "c10c_attributes_roundtrip_crc_md5", "c10c_attributes_roundtrip_all", "c10c_attributes_roundtrip_time_patch"],
+  ["special_files::attributes::Attributes::{to_bytes,parse}"], "2 files, all attribute values symbolic; flag combination concrete per harness (0x1, 0x5, 0xF, 0xA)",
+  "2 files", stubs=[FMT], timeout=900)
+H("C10", "mpq", _AT, "quick", "canary", ["c10c_canary"], ["special_files::attributes::Attributes::to_bytes"], "vacuity twin", "-", expect="canary", stubs=[FMT])
+H("C05", "mpq", _AT, "quick", "C05.mpq.5 (attributes) parser is total on hostile content", ["c05_attributes_parse_total"],
+  ["special_files::attributes::Attributes::parse"], "24 bytes symbolic behind the version word, block counts 0, 1, 2", "24-byte file, <= 2 blocks", stubs=[FMT], timeout=900)
+
+# c02d_builder_to_reference_ms_* (builder -> reference reader of the multi-sector layout) are NOT registered:
+# 20 min time-out / memory cap on this machine (512-byte sector copies + a data-dependent raw/compressed
+# decision per sector); the sector layout of compressed multi-sector files stays outside the C02 claim.
+H("C10", "mpq", _BP, "thorough", "C10.d acceptance implies the checksum matches: a data byte altered and the stored checksum replaced by arbitrary bytes - whenever the read succeeds the stored checksum is the Adler-32 of what is returned",
+  ["c10d_accept_implies_checksum_matches"], _pathfns + ["adler2::adler32_slice"],
+  "2-byte file content, fault offset/mask and 4 replacement checksum bytes symbolic", "2-byte single-unit file; reference Adler-32 in closed form",
+  stubs=[FMT, MEMFILE], timeout=2400)
+
 
 # =============================================================================== per-property fragments
 # harness/cat_*.py files are executed in this namespace (they call H(...), extend CRATES / OUTSIDE)
